@@ -3169,6 +3169,12 @@ def unfold_reduce(stmts, counter):
                 out += new
                 changed = True
                 continue
+            if init is None and isinstance(IT, (ast.ListComp, ast.List, ast.Tuple)) and not any(isinstance(x, (ast.Await, ast.Yield, ast.YieldFrom, ast.NamedExpr)) for x in ast.walk(IT)):
+                # a list built on the spot: it gets a name, then the sequence form below applies
+                counter[0] += 1
+                src = f"_seq{counter[0]}"
+                out.append(ast.fix_missing_locations(ast.copy_location(ast.Assign(targets=[ast.Name(id=src, ctx=ast.Store())], value=IT, lineno=st.lineno), st)))
+                IT = ast.Name(id=src, ctx=ast.Load())
             if init is None and not _cheap(IT):
                 out.append(st)
                 continue
